@@ -81,9 +81,10 @@ type c12Probe struct {
 }
 
 type c12Name struct {
-	Off   int    // offset of the name inside Expr
-	Lower string // lower-case name
-	Fn    bool
+	Off    int    // offset of the name inside Expr
+	Lower  string // lower-case name
+	Fn     bool
+	InHash bool // the name occurs inside the arguments of a hashFiles() call
 }
 
 func c12Spell(name string, fn bool) string {
@@ -100,9 +101,9 @@ func c12Spell(name string, fn bool) string {
 // type) resp. the call itself.
 func c12Leaf(name string, fn bool) c12Probe {
 	if fn {
-		return c12Probe{Expr: c12Spell(name, true), Names: []c12Name{{0, strings.ToLower(name), true}}, Bool: !strings.EqualFold(name, "hashFiles")}
+		return c12Probe{Expr: c12Spell(name, true), Names: []c12Name{{Off: 0, Lower: strings.ToLower(name), Fn: true}}, Bool: !strings.EqualFold(name, "hashFiles")}
 	}
-	return c12Probe{Expr: "toJSON(" + name + ")", Names: []c12Name{{len("toJSON("), strings.ToLower(name), false}}}
+	return c12Probe{Expr: "toJSON(" + name + ")", Names: []c12Name{{Off: len("toJSON("), Lower: strings.ToLower(name)}}}
 }
 
 func (p c12Probe) wrap(pre, post string, isBool bool) c12Probe {
@@ -220,6 +221,7 @@ type c12Result struct {
 	Missing  []c12Obs // predicted, not observed
 	Spurious []c12Obs // observed, not predicted
 	Err      error
+	ExprCol  int // column of the first character of the probe expression
 }
 
 func (r *c12Result) ok() bool { return r.Err == nil && len(r.Missing) == 0 && len(r.Spurious) == 0 }
@@ -233,7 +235,7 @@ func c12Run(c *Case, g map[string]*c12Avail, cl *c12Class, p c12Probe, pre, post
 	exp, _ := c12Expect(g, cl, p, line, col+off)
 	ds, err := lintSrc(src)
 	c.Eval(1)
-	res := &c12Result{Src: src, Diags: ds, Err: err}
+	res := &c12Result{Src: src, Diags: ds, Err: err, ExprCol: col + off}
 	if err != nil {
 		return res, exp
 	}
@@ -629,7 +631,11 @@ func c12RandExpr(r *Rand, leaves []c12Probe, depth int) c12Probe {
 	}
 	if len(leaves) == 1 {
 		sub := c12RandExpr(r, leaves, depth-1)
-		switch r.Intn(5) {
+		switch r.Intn(7) {
+		case 5: // inside the arguments of the only special function that takes arguments
+			return c12HashCall(sub.wrap("toJSON(", ")", false), c12RandCase(r, "hashFiles"), "")
+		case 6:
+			return c12HashCall(sub.wrap("toJSON(", ")", false), c12RandCase(r, "hashFiles"), "'p', ")
 		case 0:
 			return sub.wrap("(", ")", sub.Bool)
 		case 1:
@@ -668,7 +674,30 @@ func c12RandExpr(r *Rand, leaves []c12Probe, depth int) c12Probe {
 		n.Off += off
 		q.Names = append(q.Names, n)
 	}
+	if r.Intn(4) == 0 {
+		q = c12HashCall(q.wrap("toJSON(", ")", false), c12RandCase(r, "hashFiles"), "")
+	}
 	return q
+}
+
+// c12AllInsideHash: every missing verdict belongs to a name inside the arguments of a hashFiles()
+// call (names are identified by their column relative to the start of the expression).
+func c12AllInsideHash(p c12Probe, res *c12Result) bool {
+	if len(res.Missing) == 0 {
+		return false
+	}
+	for _, m := range res.Missing {
+		inside := false
+		for _, n := range p.Names {
+			if res.ExprCol+n.Off == m.Col && n.Lower == m.Name && n.Fn == m.Fn && n.InHash {
+				inside = true
+			}
+		}
+		if !inside {
+			return false
+		}
+	}
+	return true
 }
 
 // c12PlainOnly: positions whose column bookkeeping in actionlint ignores YAML quoting (bare `if:`
@@ -744,6 +773,11 @@ func c12RandomCase(c *Case, g map[string]*c12Avail, classes []*c12Class) {
 			c.Violation("C12:position-never-checked:"+cl.Name, fmt.Sprintf("position class %q (table key %s): nothing is reported, not even the control probes toJSON(jobs) and toJSON(env) - placeholders at this position are not checked at all", cl.Name, c12KeyLabel(cl.Key)), c12Detail(cl, res, exp))
 			continue
 		}
+		if !g[cl.Key].Func["hashfiles"] && len(res.Spurious) == 0 && c12AllInsideHash(p, res) {
+			c.Violation("C12:context-in-arguments-of-unavailable-function-not-reported",
+				fmt.Sprintf("random embedding at position class %q (key %s): every unreported name sits inside the arguments of a hashFiles() call that is itself unavailable there; missing=%v", cl.Name, c12KeyLabel(cl.Key), res.Missing), c12Detail(cl, res, exp))
+			continue
+		}
 		pol := "not-reported"
 		if len(res.Missing) == 0 {
 			pol = "wrongly-reported"
@@ -755,10 +789,11 @@ func c12RandomCase(c *Case, g map[string]*c12Avail, classes []*c12Class) {
 // ---------------------------------------------------------------------------
 
 func runC12(r *Run) {
-	r.Rule = "complete cross product: every placeholder position class of the workflow syntax (one clean template each) x 12 contexts + 5 special functions x embeddings {toJSON(ctx) / fn(), upper-case name, nested in call+comparison+negation+logical operator, second placeholder of the scalar}; expected availability diagnostics (exact line:col) from an independently transcribed documentation table and a position->key map. Plus the API boundary (WorkflowKeyAvailability over all table keys and misspelt keys, SpecialFunctionNames, a semantics checker configured with the result) and random expressions with 1-3 names in random letter case, nesting, quoting and surrounding text. Non-trivial = distinct (class, name, embedding) triple, distinct API key, distinct random workflow."
+	r.Rule = "complete cross product: every placeholder position class of the workflow syntax (one clean template each) x 12 contexts + 5 special functions x embeddings {toJSON(ctx) / fn(), upper-case name, nested in call+comparison+negation+logical operator, second placeholder of the scalar}; expected availability diagnostics (exact line:col) from an independently transcribed documentation table and a position->key map. Plus the API boundary (WorkflowKeyAvailability over all table keys and misspelt keys, SpecialFunctionNames, a semantics checker configured with the result) and random expressions with 1-3 names in random letter case, nesting (also inside hashFiles arguments), quoting and surrounding text. Several names in one expression: every class x 12 contexts inside the arguments of hashFiles (7 shapes; both verdicts predicted independently) and every class x 17x17 ordered name pairs as arguments of one call / operands of one operator. Non-trivial = distinct (class, name, embedding) triple, (class, context, hashFiles shape), (class, name, name), distinct API key, distinct random workflow."
 	r.Assume("the governing table key of a sub-field without a row of its own is the row of the enclosing mapping (container.ports -> jobs.<job_id>.container, services.<id>.image -> jobs.<job_id>.services, strategy.* -> jobs.<job_id>.strategy, with.args -> jobs.<job_id>.steps.with, env var names -> the row of the env mapping)")
 	r.Assume("`undefined variable \"jobs\"` counts as reporting the jobs context where it is not available")
 	r.Assume("only availability-class diagnostics are compared; any other diagnostic of a probe workflow is ignored")
+	r.Assume("calls are well-typed (hashFiles only gets string arguments): for a call whose arguments do not match any signature actionlint reports the signature error instead of the availability of the callee")
 	r.Assume("a scalar contains at most one placeholder that mentions a context or special function (actionlint stops checking a scalar at its first faulty placeholder)")
 
 	g := c12Golden()
@@ -775,6 +810,8 @@ func runC12(r *Run) {
 	fams := []*Family{
 		{Name: "api-boundary", N: 1, Do: func(c *Case) { c12APICase(c, g) }},
 		{Name: "cross-product", N: len(classes), Do: func(c *Case) { c12ClassCase(c, g, classes[c.Idx]) }},
+		{Name: "hashfiles-arguments", N: len(classes), Do: func(c *Case) { c12HashArgsCase(c, g, classes[c.Idx]) }},
+		{Name: "name-pairs", N: len(classes), Do: func(c *Case) { c12PairsCase(c, g, classes[c.Idx]) }},
 		{Name: "random-embedding", N: r.Q(1000, 40000), Do: func(c *Case) { c12RandomCase(c, g, classes) }},
 	}
 	r.RunFamilies(fams)
@@ -797,6 +834,14 @@ func runC12(r *Run) {
 		if !r.SetHas("api_keys", row.Key) {
 			r.Inconclusive("API check did not reach key " + row.Key)
 		}
+	}
+	for _, want := range []string{"hashFiles allowed=false, context in its arguments allowed=false", "hashFiles allowed=false, context in its arguments allowed=true", "hashFiles allowed=true, context in its arguments allowed=false", "hashFiles allowed=true, context in its arguments allowed=true"} {
+		if !r.SetHas("hashfiles_argument_verdict_combinations", want) {
+			r.Inconclusive("hashfiles-arguments family never observed the combination: " + want)
+		}
+	}
+	if r.Counter("name_pairs_both_reported") == 0 {
+		r.Inconclusive("name-pairs family never had two unavailable names in one expression")
 	}
 	if !r.SetHas("table_keys", "none") {
 		r.Inconclusive("no position class outside the table was exercised")
